@@ -221,15 +221,30 @@ func (c *Case) typSig() string {
 // the function is called, and the inputs are read again afterwards.
 func (c *Case) source() string {
 	var b strings.Builder
-	b.WriteString("(let (")
-	if c.T1 != "" {
-		b.WriteString("(s1 " + c.seq1().lisp() + ")")
+	decorated := c.Route != "" || c.Same || c.Prior
+	if decorated {
+		// sequence-1 reached through a route, shared with sequence-2, or used
+		// by a failed call before: bindings are sequential, the donor is s0
+		b.WriteString("(let* (")
+		s0, s1 := c.routeBinding()
+		if c.T1 == "" {
+			s0, s1 = "nil", "nil"
+		}
+		b.WriteString("(s0 " + s0 + ") (s1 " + s1 + ")")
 	} else {
-		b.WriteString("(s1 nil)")
+		b.WriteString("(let (")
+		if c.T1 != "" {
+			b.WriteString("(s1 " + c.seq1().lisp() + ")")
+		} else {
+			b.WriteString("(s1 nil)")
+		}
 	}
-	if c.T2 != "" {
+	switch {
+	case c.Same:
+		b.WriteString(" (s2 s1)")
+	case c.T2 != "":
 		b.WriteString(" (s2 " + c.seq2().lisp() + ")")
-	} else {
+	default:
 		b.WriteString(" (s2 nil)")
 	}
 	if c.T3 != "" {
@@ -242,9 +257,17 @@ func (c *Case) source() string {
 	} else {
 		b.WriteString(" (b2 nil)")
 	}
-	b.WriteString(") (let ((b1 (copy-seq s1))) (list (multiple-value-list ")
+	b.WriteString(") (let ((b1 (copy-seq s1))) ")
+	if c.Prior {
+		b.WriteString(c.priorCall() + " ")
+	}
+	b.WriteString("(list (multiple-value-list ")
 	b.WriteString(c.call())
-	b.WriteString(") s1 s2 b1 b2)))")
+	b.WriteString(") s1 s2 b1 b2")
+	if decorated {
+		b.WriteString(" " + c.donorProbe())
+	}
+	b.WriteString(")))")
 	return b.String()
 }
 
@@ -369,7 +392,8 @@ func judge(c *Case) (fails []failure, src, got string) {
 	}
 	got = render(res)
 	top, _ := res.(slip.List)
-	if len(top) != 5 {
+	decorated := c.Route != "" || c.Same || c.Prior
+	if (!decorated && len(top) != 5) || (decorated && len(top) != 6) {
 		return []failure{{"shape", fmt.Sprintf("%s => %s", src, got)}}, src, got
 	}
 	vals, _ := top[0].(slip.List)
@@ -417,6 +441,9 @@ func judge(c *Case) (fails []failure, src, got string) {
 			wantShow = ex.show
 		}
 	}
+	if c.Same && ex.in1 == "=" {
+		ex.in2 = "=" // one object: what is read through s2 is the updated sequence
+	}
 	for k, want := range []string{ex.in1, ex.in2} {
 		if want == "" {
 			continue
@@ -435,10 +462,25 @@ func judge(c *Case) (fails []failure, src, got string) {
 	if c.T1 != "" {
 		orig := c.seq1().show()
 		if after := render(top[3]); after != orig {
-			fails = append(fails, failure{"copy-seq-shares-storage", fmt.Sprintf("%s: the copy-seq of sequence-1 taken before the call is %s after the call, was %s", src, after, orig)})
+			if c.Route != "" {
+				fails = append(fails, failure{"derived-sequence-wrong", fmt.Sprintf("%s: the copy-seq of sequence-1 (route %s) taken before the call is %s after the call, the language defines %s", src, c.Route, after, orig)})
+			} else {
+				fails = append(fails, failure{"copy-seq-shares-storage", fmt.Sprintf("%s: the copy-seq of sequence-1 taken before the call is %s after the call, was %s", src, after, orig)})
+			}
 		}
 		if after := render(top[4]); after != orig {
 			fails = append(fails, failure{"bystander-modified", fmt.Sprintf("%s: a separately built sequence with the same elements is %s after the call, was %s", src, after, orig)})
+		}
+	}
+	if decorated && c.T1 != "" {
+		if want := c.donorWant(ex.in1, wantShow); want != "" {
+			if after := render(top[5]); after != want {
+				what := "the sequence that sequence-1 was derived from"
+				if c.Route == "fp" {
+					what = "the elements above the fill pointer of sequence-1"
+				}
+				fails = append(fails, failure{"donor-modified", fmt.Sprintf("%s: %s (route %s) shows %s after the call, the language defines %s", src, what, c.Route, after, want)})
+			}
 		}
 	}
 	return fails, src, got
@@ -532,6 +574,15 @@ func minimise(c Case, kind string) Case {
 		return false
 	}
 	try(func(v *Case) { v.Perm = 0 })
+	if cur.Prior {
+		try(func(v *Case) { v.Prior = false })
+	}
+	if cur.Same {
+		try(func(v *Case) { v.Same = false }) // an equal, separately built sequence-2
+	}
+	if cur.Route != "" {
+		try(func(v *Case) { v.Route = "" })
+	}
 	if cur.Key != "" {
 		dropped := false
 		if droppableKey(&cur) {
@@ -620,7 +671,7 @@ func exec(x *fw.Ctx, c Case) {
 		if na := m.nilArgs(); na != "" && (strings.HasPrefix(kind, "error:") || kind == "internal-fault") && !m.CntNil && !m.EndNil {
 			kind += "@empty-list-" + na
 		}
-		sig := fmt.Sprintf("fn=%s fail=%s feat=%s kw=%s typ=%s", c.Fn, kind, m.features(kind), m.kwSig(), m.typSig())
+		sig := fmt.Sprintf("fn=%s fail=%s feat=%s kw=%s typ=%s", c.Fn, kind, m.features(kind), m.kwSig(), m.typSig()) + m.decorSig()
 		msg := f.msg
 		if ms := m.source(); ms != src {
 			for _, mf := range safeJudge(&m) {
